@@ -14,7 +14,6 @@ structure NodeOk (lib : List Cls) (sg : SGraph) (n : Nat) : Prop where
   cls : ∃ c, findCls lib (sg.cls n) = some c ∧ c.typeId = (sg.g.node n).typeId ∧ c.args = (sg.g.node n).args.map reset
   names : ((sg.g.node n).args.map (·.name)).Nodup
   req : ∀ a ∈ (sg.g.node n).args, a.required = true → a.default = none
-  keys : ∀ a ∈ (sg.g.node n).args, noTypeKey a.value = true
 
 /-- reachable from one of the roots through values, task link, pre-tasks, init tasks -/
 def Needed (g : Graph) (roots : List Nat) (n : Nat) : Prop := ∃ r ∈ roots, Reach (succAll g) r n
@@ -43,55 +42,64 @@ theorem lookupJ_none_of_not_mem (k : List Nat) : ∀ (ks : List (List Nat)) (vs 
     exact lookupJ_none_of_not_mem k ks vs h.2
 
 mutual
-theorem decJ_encJ_aux (ids : List Nat) : ∀ (v : Val), noTypeKey v = true → (∀ m ∈ cfgRefs v, m ∈ ids) →
+theorem decJ_encJ_aux (ids : List Nat) : ∀ (v : Val), (∀ m ∈ cfgRefs v, m ∈ ids) →
     decJ ids (encJ v) = .ok v
-  | .none, _, _ => by simp [encJ, decJ]
-  | .bool _, _, _ => by simp [encJ, decJ]
-  | .int _, _, _ => by simp [encJ, decJ]
-  | .float _, _, _ => by simp [encJ, decJ]
-  | .str _, _, _ => by simp [encJ, decJ]
-  | .enum s, _, _ => by
-    simp [encJ, decJ, lookupJ, kType, kValue, sEnum, sPython, sPath, sPathSer]
-  | .path s, _, _ => by
-    simp [encJ, decJ, lookupJ, kType, kValue, sPython, sPath]
-  | .list l, hk, hr => by
+  | .none, _ => by simp [encJ, decJ]
+  | .bool _, _ => by simp [encJ, decJ]
+  | .int _, _ => by simp [encJ, decJ]
+  | .float _, _ => by simp [encJ, decJ]
+  | .str _, _ => by simp [encJ, decJ]
+  | .enum s, _ => by
+    simp [encJ, decJ, lookupJ, kType, kValue, sEnum, sPython, sPath, sPathSer, sDict]
+  | .path s, _ => by
+    simp [encJ, decJ, lookupJ, kType, kValue, sPython, sPath, sDict]
+  | .list l, hr => by
     simp only [encJ, decJ]
-    rw [decJs_encJs_aux ids l (by simpa only [noTypeKey] using hk) (by simpa only [cfgRefs] using hr)]
+    rw [decJs_encJs_aux ids l (by simpa only [cfgRefs] using hr)]
     rfl
-  | .dict ks vs, hk, hr => by
-    simp only [noTypeKey, Bool.and_eq_true, Bool.not_eq_true', List.contains_eq_mem,
-      decide_eq_false_iff_not] at hk
-    simp only [encJ, decJ]
-    rw [lookupJ_none_of_not_mem kType ks (encJs vs) hk.1]
-    simp only
-    rw [decJs_encJs_aux ids vs hk.2 (by simpa only [cfgRefs] using hr)]
-    rfl
-  | .ref n, _, hr => by
+  | .dict ks vs, hr => by
+    have hvs := decJs_encJs_aux ids vs (by simpa only [cfgRefs] using hr)
+    by_cases hk : ks.contains kType = true
+    · -- wrapped: `{"type": "dict", "value": items}`
+      have h1 : lookupJ kType [kType, kValue] [JVal.str sDict, JVal.obj ks (encJs vs)] = some (.str sDict) := by
+        simp [lookupJ]
+      have h2 : decWrapped ids [kType, kValue] [JVal.str sDict, JVal.obj ks (encJs vs)]
+          = (decJs ids (encJs vs)).map (.dict ks) := by
+        simp [decWrapped, kType, kValue]
+      simp only [encJ, hk, if_true, decJ, h1, h2, hvs]
+      rfl
+    · have hk' : kType ∉ ks := by simpa using hk
+      have hk2 : ks.contains kType = false := by simpa using hk
+      simp only [encJ, hk2, Bool.false_eq_true, if_false, decJ]
+      rw [lookupJ_none_of_not_mem kType ks (encJs vs) hk']
+      simp only
+      rw [hvs]
+      rfl
+  | .ref n, hr => by
     have : n ∈ ids := hr n (by simp [cfgRefs])
-    simp [encJ, decJ, lookupJ, kType, kValue, sPython, this]
-theorem decJs_encJs_aux (ids : List Nat) : ∀ (l : List Val), noTypeKeyL l = true → (∀ m ∈ cfgRefsL l, m ∈ ids) →
+    simp [encJ, decJ, lookupJ, kType, kValue, sPython, sDict, this]
+theorem decJs_encJs_aux (ids : List Nat) : ∀ (l : List Val), (∀ m ∈ cfgRefsL l, m ∈ ids) →
     decJs ids (encJs l) = .ok l
-  | [], _, _ => by simp [encJs, decJs]
-  | v :: vs, hk, hr => by
-    simp only [noTypeKeyL, Bool.and_eq_true] at hk
+  | [], _ => by simp [encJs, decJs]
+  | v :: vs, hr => by
     simp only [cfgRefsL, List.mem_append] at hr
     simp only [encJs, decJs]
-    rw [decJ_encJ_aux ids v hk.1 (fun m hm => hr m (Or.inl hm)),
-      decJs_encJs_aux ids vs hk.2 (fun m hm => hr m (Or.inr hm))]
+    rw [decJ_encJ_aux ids v (fun m hm => hr m (Or.inl hm)),
+      decJs_encJs_aux ids vs (fun m hm => hr m (Or.inr hm))]
 end
 
-theorem decJ_encJ (ids : List Nat) (v : Val) (hk : noTypeKey v = true) (hr : ∀ m ∈ cfgRefs v, m ∈ ids) :
-    decJ ids (encJ v) = .ok v := decJ_encJ_aux ids v hk hr
+theorem decJ_encJ (ids : List Nat) (v : Val) (hr : ∀ m ∈ cfgRefs v, m ∈ ids) :
+    decJ ids (encJ v) = .ok v := decJ_encJ_aux ids v hr
 
-theorem decJs_encJs (ids : List Nat) (l : List Val) (hk : noTypeKeyL l = true)
-    (hr : ∀ m ∈ cfgRefsL l, m ∈ ids) : decJs ids (encJs l) = .ok l := decJs_encJs_aux ids l hk hr
+theorem decJs_encJs (ids : List Nat) (l : List Val)
+    (hr : ∀ m ∈ cfgRefsL l, m ∈ ids) : decJs ids (encJs l) = .ok l := decJs_encJs_aux ids l hr
 
-theorem decJ_encField (ids : List Nat) (b : Bool) (v : Val) (hk : noTypeKey v = true)
+theorem decJ_encField (ids : List Nat) (b : Bool) (v : Val)
     (hr : ∀ m ∈ cfgRefs v, m ∈ ids) : decJ ids (encField b v) = .ok v := by
   unfold encField
   split
-  · simp [decJ, lookupJ, kType, kValue, sPython, sPath, sPathSer]
-  · exact decJ_encJ_aux ids _ hk hr
+  · simp [decJ, lookupJ, kType, kValue, sPython, sPath, sPathSer, sDict]
+  · exact decJ_encJ_aux ids _ hr
 
 /-! ### the emitted order -/
 
@@ -158,15 +166,14 @@ theorem firstDup_none : ∀ l : List Nat, l.Nodup → firstDup l = none
     exact firstDup_none xs h.2
 
 theorem decFields_enc (ids : List Nat) (data : List (List Nat)) : ∀ (l : List Arg),
-    (∀ a ∈ l, noTypeKey a.value = true) → (∀ a ∈ l, ∀ m ∈ cfgRefs a.value, m ∈ ids) →
+    (∀ a ∈ l, ∀ m ∈ cfgRefs a.value, m ∈ ids) →
     decFields ids (l.map (fun a => (a.name, encField (data.contains a.name) a.value)))
       = .ok (l.map (fun a => (a.name, a.value)))
-  | [], _, _ => rfl
-  | a :: l, hk, hr => by
+  | [], _ => rfl
+  | a :: l, hr => by
     simp only [List.map_cons, decFields]
-    rw [decJ_encField ids _ a.value (hk a List.mem_cons_self) (hr a List.mem_cons_self),
-      decFields_enc ids data l (fun b hb => hk b (List.mem_cons_of_mem _ hb))
-        (fun b hb => hr b (List.mem_cons_of_mem _ hb))]
+    rw [decJ_encField ids _ a.value (hr a List.mem_cons_self),
+      decFields_enc ids data l (fun b hb => hr b (List.mem_cons_of_mem _ hb))]
 
 theorem lookupV_none (k : List Nat) (p : Arg → Bool) : ∀ (l : List Arg), k ∉ l.map (·.name) →
     lookupV k ((l.filter p).map (fun a => (a.name, a.value))) = none
@@ -270,7 +277,6 @@ theorem loadDef_mkDef (fl : Flags) (lib : List Cls) (sg : SGraph) (ids : List Na
   obtain ⟨c, hc, hty, hargs⟩ := hok.cls
   simp only [succAll, List.mem_append] at hs
   have hdec := decFields_enc ids c.data ((sg.g.node n).args.filter present)
-    (fun a ha => hok.keys a (List.mem_filter.1 ha).1)
     (fun a ha m hm => hs m (Or.inl (Or.inl (Or.inl (mem_argRefs_of_mem (List.mem_filter.1 ha).1 hm)))))
   have hchk := checkFields_ok (sg.g.node n).args hok.names ((sg.g.node n).args.filter present)
     (fun a ha => by simpa using List.mem_filter.1 ha)
@@ -366,7 +372,7 @@ theorem fromParameters_serialize (fl : Flags) (lib : List Cls) (sg : SGraph) (ro
     fun n hn => lookupObj_loadedOf fl sg n _ hn⟩
 
 theorem fromStateDict_stateDict (fl : Flags) (lib : List Cls) (sg : SGraph) (v : Val)
-    (hwf : WF sg.g) (hk : noTypeKey v = true) (hr : ∀ r ∈ cfgRefs v, r < sg.g.size)
+    (hwf : WF sg.g) (hr : ∀ r ∈ cfgRefs v, r < sg.g.size)
     (hok : ∀ n, Needed sg.g (cfgRefs v) n → NodeOk lib sg n) :
     ∃ L, fromStateDict fl lib (stateDict fl lib sg v) = .ok (L, v) ∧
       L.map (·.1) = serialOrder sg.g (cfgRefs v) ∧
@@ -375,7 +381,7 @@ theorem fromStateDict_stateDict (fl : Flags) (lib : List Cls) (sg : SGraph) (v :
   refine ⟨_, ?_, loadedOf_keys fl sg _, fun n hn => lookupObj_loadedOf fl sg n _ hn⟩
   have hl := load_serialize_eq fl lib sg (cfgRefs v) hwf hr hok
   obtain ⟨_, hiff, _, _⟩ := serialOrder_spec sg.g (cfgRefs v) hwf hr
-  have hdec := decJ_encJ (serialOrder sg.g (cfgRefs v)) v hk
+  have hdec := decJ_encJ (serialOrder sg.g (cfgRefs v)) v
     (fun m hm => (hiff m).2 ⟨m, hm, Reach.refl m⟩)
   simp only [fromStateDict, stateDict, hl, serialize_ids, hdec]
   rfl
